@@ -47,7 +47,7 @@ func (eng) Cases(seed uint64, tier string) []core.CaseDesc {
 	var cs []core.CaseDesc
 	nn, nc, ne := 150, 150, 40
 	if tier == "thorough" {
-		nn, nc, ne = 6000, 6000, 800
+		nn, nc, ne = 120000, 120000, 8000
 	}
 	for i := 0; i < nn; i++ {
 		cs = append(cs, mk(fmt.Sprintf("neg/%05d", i), "neg", seed*1000003+uint64(i)))
@@ -63,7 +63,7 @@ func (eng) Cases(seed uint64, tier string) []core.CaseDesc {
 	}
 	nrd := 150
 	if tier == "thorough" {
-		nrd = 4000
+		nrd = 40000
 	}
 	for i := 0; i < nrd; i++ {
 		cs = append(cs, mk(fmt.Sprintf("readers/%05d", i), "readers", seed*5000003+uint64(i)))
